@@ -8,16 +8,27 @@ import base64
 from vf.gens import layers, netgen
 
 
-def rec_single(r, name, type_, label, blob, plain, delims=(b" ", b" "), value=None):
+WRAPS = [(b"CreateObject(", b")"), (b"createobject( ", b" )"), (b"x = CreateObject(", b") ;")]
+
+
+def rec_single(r, name, type_, label, blob, plain, delims=(b" ", b" "), value=None, wrap_p=0.15):
     prefix = netgen.offsets_prefix(r)
     dl, dr = delims
+    wrap = None
+    if delims == (b" ", b" ") and r.random() < wrap_p and blob.count(b"(") == blob.count(b")") and b"\x00" not in blob:
+        # inside an undecoded context at a positive offset (results get re-based by the engine there)
+        wrap = r.choice(WRAPS)
+        dl, dr = b" " + wrap[0], wrap[1] + b" "
     if prefix.endswith(b" ") and dl == b" ":
         prefix = prefix[:-1]
     suffix = netgen.neutral_text(r)
     if dr == b" " and not suffix:
         dr = b""
-    return {"data": prefix + dl + blob + dr + suffix, "prefix": prefix + dl, "suffix": dr + suffix, "blob": blob, "payload": plain,
-            "layers": [{"name": name, "type": type_, "label": label, "plain": plain, "value": plain if value is None else value, "inner_off": 0}]}
+    rec = {"data": prefix + dl + blob + dr + suffix, "prefix": prefix + dl, "suffix": dr + suffix, "blob": blob, "payload": plain,
+           "layers": [{"name": name, "type": type_, "label": label, "plain": plain, "value": plain if value is None else value, "inner_off": 0}]}
+    if wrap:
+        rec["wrap"] = True
+    return rec
 
 
 def from_encoder(r, enc_name, payload):
